@@ -46,11 +46,18 @@ pub fn get_nonterminals(file: &File) -> /*@[*/(r: /*@]*/Result<Vec<validated::No
     },
     //@]
 {
-    let unvalidated: Vec<UnvalidatedNonterminal> = /*@{ T13_select_nonterminals*//*@- file
+    let unvalidated: Vec<UnvalidatedNonterminal> = /*@{ T18_open*//*@- file
         .items
         .iter()
-        .filter_map(get_unvalidated_nonterminal)
-        .collect() *//*@|*/__vx_select_nonterminals(file)/*@}*/;
+        .filter_map( *//*@|*/__vx_filter_map_collect(&file.items, /*@}*/get_unvalidated_nonterminal/*@{ T18_close*//*@- )
+        .collect() *//*@|*/)/*@}*/;
+    //@[ proof
+    proof {
+        let lam = |it: FileItem| g_nonterminal(it);
+        assert(unvalidated@ == filter_map_spec(file.items@, lam));
+        lemma_select_nonterminals(file.items@, lam);
+    }
+    //@]
 
     let defined_symbols = get_defined_symbols(file)?;
     //@[ proof
@@ -188,17 +195,28 @@ pub open spec fn nt_of_item(it: FileItem) -> validated::Nonterminal {
 }
 //@]
 
-//@[ T13: outlined selection (current /repo tokens; body not verified, contract assumed)
+//@[ C10 lemma: the selection computed with filter_map is the list of struct / enum declarations
 spec fn un_view(u: UnvalidatedNonterminal) -> FileItem {
     match u { UnvalidatedNonterminal::Struct(s) => FileItem::Struct(*s), UnvalidatedNonterminal::Enum(e) => FileItem::Enum(*e) }
 }
-#[verifier::external_body]
-fn __vx_select_nonterminals<'a>(file: &'a File) -> (r: Vec<UnvalidatedNonterminal<'a>>)
-    ensures r@.len() == sel_nonterminals(file.items@).len(), forall|i: int| 0 <= i < r@.len() ==> un_view(#[trigger] r@[i]) == sel_nonterminals(file.items@)[i]
-{ /*@orig T13_select_nonterminals*/ }
+spec fn g_nonterminal<'a>(it: FileItem) -> Option<UnvalidatedNonterminal<'a>> {
+    match it { FileItem::Struct(s) => Some(UnvalidatedNonterminal::Struct(&s)), FileItem::Enum(e) => Some(UnvalidatedNonterminal::Enum(&e)), _ => None }
+}
+proof fn lemma_select_nonterminals<'a>(items: Seq<FileItem>, g: spec_fn(FileItem) -> Option<UnvalidatedNonterminal<'a>>)
+    requires forall|it: FileItem| #[trigger] g(it) == g_nonterminal::<'a>(it)
+    ensures filter_map_spec(items, g).len() == sel_nonterminals(items).len(),
+        forall|i: int| 0 <= i < sel_nonterminals(items).len() ==> un_view(#[trigger] filter_map_spec(items, g)[i]) == sel_nonterminals(items)[i]
+    decreases items.len()
+{
+    if items.len() > 0 { lemma_select_nonterminals(items.drop_last(), g); }
+}
 //@]
 
-fn get_unvalidated_nonterminal(item: &FileItem) -> Option<UnvalidatedNonterminal<'_>> {
+fn get_unvalidated_nonterminal(item: &FileItem) -> /*@[*/(r: /*@]*/Option<UnvalidatedNonterminal<'_>>/*@[*/)/*@]*/
+    //@[ C10 get_unvalidated_nonterminal: structs and enums are the nonterminal declarations
+    ensures r == g_nonterminal(*item),
+    //@]
+{
     match item {
         FileItem::Struct(struct_def) => Some(UnvalidatedNonterminal::Struct(struct_def)),
         FileItem::Enum(enum_def) => Some(UnvalidatedNonterminal::Enum(enum_def)),
